@@ -110,7 +110,7 @@ func TestVerif_C20S(t *testing.T) {
 	rng := verifRand()
 	nHist, nOps := 1, 36
 	if verifThorough() {
-		nHist, nOps = 12, 80
+		nHist, nOps = 4, 60
 	}
 	var cases, idx []string
 	for hi := 0; hi < nHist; hi++ {
@@ -122,7 +122,7 @@ func TestVerif_C20S(t *testing.T) {
 		// registration happens in the connection goroutine: wait until every channel is in the map
 		// (an event published earlier would be missed by a late one) — probe with logins is not
 		// possible without consuming; a short settle time instead, checked below by the first event
-		time.Sleep(50 * time.Millisecond)
+		time.Sleep(300 * time.Millisecond)
 		cookie := env.cookie("alice", AuthTypeU2F)
 		var published []eventmon.EventV0
 		var ops []string
